@@ -51,6 +51,10 @@ func (m *Machine) callForeign(caller *frame, pos token.Pos, fn *ssa.Function, ar
 		m.foreign[name]++
 		return f(m, caller, pos, args)
 	}
+	if f, ok := regexTab[name]; ok {
+		m.foreign[name+" (symbolic regexp)"]++
+		return f(m, caller, pos, args)
+	}
 	if f, ok := vfsTab[name]; ok {
 		m.foreign[name+" (virtual FS)"]++
 		return f(m, caller, pos, args)
@@ -1458,8 +1462,7 @@ func fRegexpReplaceAllStringFunc(m *Machine, fr *frame, pos token.Pos, args []va
 		}
 	} else {
 		if re.String() != "{.*?}" {
-			subj = m.concretise(subj, "regexp "+re.String())
-			return fRegexpReplaceAllStringFunc(m, fr, pos, []value{args[0], subj, callback})
+			return regexTab["(*regexp.Regexp).ReplaceAllStringFunc"](m, fr, pos, args)
 		}
 		st := m.st
 		for i := 0; i < len(bs); {
